@@ -390,7 +390,43 @@ func sameDesc(obs, exp *D) bool {
 	if exp.K == "any" {
 		return true
 	}
-	return obs.Canon() == exp.Canon()
+	if obs.Canon() == exp.Canon() {
+		return true
+	}
+	return eqDesc(obs, exp)
+}
+
+// eqDesc compares descriptors structurally; a subtree cut off by the runtime's
+// depth limit ("deep") matches anything (the same value is reached at different
+// depths through different paths).
+func eqDesc(a, b *D) bool {
+	if a == nil || b == nil {
+		return a == b
+	}
+	if a.K == "deep" || b.K == "deep" || a.K == "any" || b.K == "any" {
+		return true
+	}
+	az, bz := a.Canon() == "zero", b.Canon() == "zero"
+	if az || bz {
+		return az == bz
+	}
+	if a.K != b.K || a.ID != b.ID || len(a.F) != len(b.F) || len(a.E) != len(b.E) {
+		return false
+	}
+	if (a.K == "str" || a.K == "bool") && a.V != b.V {
+		return false
+	}
+	for i := range a.F {
+		if a.F[i].N != b.F[i].N || !eqDesc(a.F[i].D, b.F[i].D) {
+			return false
+		}
+	}
+	for i := range a.E {
+		if !eqDesc(a.E[i], b.E[i]) {
+			return false
+		}
+	}
+	return true
 }
 
 func sortedKeys(m map[string]bool) []string {
